@@ -154,6 +154,7 @@ int EGLPNUM_TYPENAME_ILLread_mps (
 	EGLPNUM_TYPENAME_ILLread_mps_state state;
 
 	ILL_IFTRACE ("\tread_mps\n");
+	state.obj = 0;
 	if (ILLsymboltab_create (&lp->rowtab, 100) ||
 			ILLsymboltab_create (&lp->coltab, 100))
 	{
@@ -210,6 +211,7 @@ int EGLPNUM_TYPENAME_ILLread_mps (
 	}
 
 CLEANUP:
+	ILL_IFFREE (state.obj);
 	ILL_RESULT (rval, "read_mps");
 }
 
@@ -449,6 +451,7 @@ static int read_mps_objname (
 	int rval = 0;
 
 	ILL_FAILfalse (state->section[ILL_MPS_OBJNAME] == 1, "should never happen");
+	ILL_IFFREE (state->obj);
 	ILL_UTIL_STR (state->obj, state->field);
 CLEANUP:
 	ILL_RETURN (rval, "read_mps_objname");
